@@ -51,11 +51,11 @@ impl TypeParams {
     }
 
     pub fn set_type(&mut self, param: Ident, ty: TokenStream, errors: &mut Errors) {
+        // The lifetimes of `ty` are fixed to the source lifetime in `generics` / `Parser::get_type`,
+        // once every `#[logos(...)]` item has been read: whether the source lifetime is implicit
+        // must not depend on the `lifetime` item coming before or after this one.
         let ty = match syn::parse2::<Type>(ty) {
-            Ok(mut ty) => {
-                self.fix_source_lifetime_implicit(&mut ty);
-                ty
-            }
+            Ok(ty) => ty,
             Err(err) => {
                 errors.err(err.to_string(), err.span());
                 return;
@@ -178,7 +178,11 @@ impl TypeParams {
 
         for (ty, replace) in self.type_params.iter() {
             match replace {
-                Some(ty) => generics.push(quote!(#ty)),
+                Some(ty) => {
+                    let mut ty = ty.clone();
+                    self.fix_source_lifetime_implicit(&mut ty);
+                    generics.push(quote!(#ty))
+                }
                 None => {
                     errors.err(
                         format!(
